@@ -25,6 +25,9 @@ type Clause struct {
 	Params  []string
 	Line    int
 	File    string
+	Def     bool   // definitional (introduction rule of a ghost predicate): assumed at call sites, not checked in the body
+	Callee  string // for atcall clauses: short key of the callee
+	Group   string // clause group this clause was spliced from ("" = the function's own clause)
 }
 
 type LoopSpec struct {
@@ -50,7 +53,24 @@ type Contract struct {
 	Lemmas   []string // spec lemma functions to instantiate (names)
 	SameAs   string            // this function is verified against (and stands for) the contract of another function, parameters mapped by position
 	FuncVars map[string]string // function-typed variables (parameters, free variables): the contract calls through them obey ("passthrough" = plugin interceptor hypothesis)
+	Abstract bool              // slot contract on a dummy function of the contracts file: never verified as a unit, obligations arise where function values are stored into the slot
+	AtCalls  []*Clause         // obligations at the unit's calls of a named callee
+	Groups   []string          // clause groups spliced into this contract (use)
+	ModGroup map[string]string // modifies entry -> group it came from
+	uses     []string
 }
+
+// slotInfo describes a function-typed field (or map-of-functions field) whose values obey a contract.
+type slotInfo struct {
+	Key   string // contract key
+	Owner bool   // the stored functions take no explicit subject: they are closures bound to the object that owns the field, which is passed as first argument of the slot contract
+}
+
+var fieldSlots = map[string]slotInfo{}
+
+// transGroups: clause groups declared transitive (two-state relations closed under composition and holding for the
+// empty execution); proved by the units lemma_<group>_refl / lemma_<group>_trans of the contracts file.
+var transGroups = map[string]bool{}
 
 // FieldContracts: "pkg.Struct.field" (or "pkg.Struct.field[]" for map-of-functions fields) -> contract key
 var fieldContracts = map[string]string{}
@@ -94,10 +114,20 @@ func parseContractText(pkg, file string, src []byte) ([]*Contract, error) {
 		}
 		if w0, r0 := splitWord(body); w0 == "fieldcontract" {
 			f := strings.Fields(r0)
-			if len(f) != 2 {
-				return nil, fmt.Errorf("%s:%d: fieldcontract <Struct.field> <contract key>", file, lineNo)
+			if len(f) != 2 && !(len(f) == 3 && f[2] == "owner") {
+				return nil, fmt.Errorf("%s:%d: fieldcontract <Struct.field> <contract key> [owner]", file, lineNo)
 			}
 			fieldContracts[pkg+"."+f[0]] = f[1]
+			fieldSlots[pkg+"."+f[0]] = slotInfo{Key: f[1], Owner: len(f) == 3}
+			continue
+		}
+		if w0, r0 := splitWord(body); w0 == "group" {
+			name := strings.Fields(r0)[0]
+			if strings.Contains(r0, " transitive") {
+				transGroups[pkg+"."+name] = true
+			}
+			cur = &Contract{Key: "group:" + pkg + "." + name, Pkg: pkg, Loops: map[int]*LoopSpec{}, File: file, Line: lineNo}
+			out = append(out, cur)
 			continue
 		}
 		if w0, r0 := splitWord(body); w0 == "globalinv" {
@@ -122,14 +152,24 @@ func parseContractText(pkg, file string, src []byte) ([]*Contract, error) {
 		}
 		word, rest := splitWord(body)
 		switch word {
-		case "requires", "ensures":
+		case "requires", "ensures", "ensures-def":
 			c := &Clause{Kind: word, Line: lineNo, File: file}
 			c.Label, c.Props, c.Text = parseLabel(rest)
+			if word == "ensures-def" {
+				// definitional postcondition of a ghost predicate: assumed by callers, not an obligation of the body
+				c.Kind = "ensures"
+				c.Def = true
+			}
 			if word == "requires" {
 				cur.Requires = append(cur.Requires, c)
 			} else {
 				cur.Ensures = append(cur.Ensures, c)
 			}
+		case "atcall":
+			callee, r2 := splitWord(rest)
+			c := &Clause{Kind: "atcall", Callee: callee, Line: lineNo, File: file}
+			c.Label, c.Props, c.Text = parseLabel(r2)
+			cur.AtCalls = append(cur.AtCalls, c)
 		case "modifies":
 			for _, t := range strings.Split(rest, ",") {
 				t = strings.TrimSpace(t)
@@ -171,6 +211,10 @@ func parseContractText(pkg, file string, src []byte) ([]*Contract, error) {
 			cur.Props = strings.Fields(rest)
 		case "trusted":
 			cur.Trusted = true
+		case "abstract":
+			cur.Abstract = true
+		case "use":
+			cur.uses = append(cur.uses, strings.Fields(rest)...)
 		case "inline":
 			cur.Inline = true
 		case "lemma":
@@ -180,7 +224,7 @@ func parseContractText(pkg, file string, src []byte) ([]*Contract, error) {
 		case "funcvar":
 			f := strings.Fields(rest)
 			if len(f) != 2 {
-				return nil, fmt.Errorf("%s:%d: funcvar <name> <contract key|passthrough>", file, lineNo)
+				return nil, fmt.Errorf("%s:%d: funcvar <name> <contract key|passthrough|callback>", file, lineNo)
 			}
 			if cur.FuncVars == nil {
 				cur.FuncVars = map[string]string{}
@@ -188,6 +232,103 @@ func parseContractText(pkg, file string, src []byte) ([]*Contract, error) {
 			cur.FuncVars[f[0]] = f[1]
 		default:
 			return nil, fmt.Errorf("%s:%d: unknown clause keyword %q", file, lineNo, word)
+		}
+	}
+	return resolveGroups(pkg, out)
+}
+
+// resolveGroups splices the clauses of the named groups into the contracts that use them and drops the group blocks.
+func resolveGroups(pkg string, cs []*Contract) ([]*Contract, error) {
+	groups := map[string]*Contract{}
+	for _, c := range cs {
+		if strings.HasPrefix(c.Key, "group:") {
+			groups[strings.TrimPrefix(c.Key, "group:"+pkg+".")] = c
+		}
+	}
+	var expand func(c *Contract, seen map[string]bool) error
+	expand = func(c *Contract, seen map[string]bool) error {
+		uses := c.uses
+		c.uses = nil
+		for _, u := range uses {
+			g := groups[u]
+			if g == nil {
+				return fmt.Errorf("%s:%d: unknown clause group %s", c.File, c.Line, u)
+			}
+			if seen[u] {
+				return fmt.Errorf("%s:%d: cyclic clause group %s", c.File, c.Line, u)
+			}
+			seen[u] = true
+			if err := expand(g, seen); err != nil {
+				return err
+			}
+			delete(seen, u)
+			cp := func(cl *Clause) *Clause {
+				n := *cl
+				if n.Group == "" {
+					n.Group = u
+				}
+				return &n
+			}
+			var rq, en []*Clause
+			for _, cl := range g.Requires {
+				rq = append(rq, cp(cl))
+			}
+			for _, cl := range g.Ensures {
+				en = append(en, cp(cl))
+			}
+			c.Requires = append(rq, c.Requires...)
+			c.Ensures = append(en, c.Ensures...)
+			var ac []*Clause
+			for _, cl := range g.AtCalls {
+				ac = append(ac, cp(cl))
+			}
+			c.AtCalls = append(ac, c.AtCalls...)
+			if c.ModGroup == nil {
+				c.ModGroup = map[string]string{}
+			}
+			for _, m := range g.Modifies {
+				dup := false
+				for _, m2 := range c.Modifies {
+					if m2 == m {
+						dup = true
+					}
+				}
+				if !dup {
+					c.Modifies = append(c.Modifies, m)
+					og := u
+					if g.ModGroup != nil && g.ModGroup[m] != "" {
+						og = g.ModGroup[m]
+					}
+					c.ModGroup[m] = og
+				}
+			}
+			for k, v := range g.FuncVars {
+				if c.FuncVars == nil {
+					c.FuncVars = map[string]string{}
+				}
+				if _, ok := c.FuncVars[k]; !ok {
+					c.FuncVars[k] = v
+				}
+			}
+			c.Groups = append(c.Groups, u)
+			for _, gg := range g.Groups {
+				c.Groups = append(c.Groups, gg)
+			}
+			if len(c.Props) == 0 {
+				c.Props = g.Props
+			}
+		}
+		return nil
+	}
+	var out []*Contract
+	for _, c := range cs {
+		if err := expand(c, map[string]bool{}); err != nil {
+			return nil, err
+		}
+	}
+	for _, c := range cs {
+		if !strings.HasPrefix(c.Key, "group:") {
+			out = append(out, c)
 		}
 	}
 	return out, nil
@@ -339,7 +480,8 @@ func collectVars(f *ssa.Function) *fnVars {
 const genHelpers = ``
 
 // genClauseFiles produces, per package, the generated file with one Go function per clause.
-func genClauseFiles(w *World, contracts map[string]*Contract) (map[string][]byte, error) {
+func genClauseFiles(w *World, contracts map[string]*Contract) (map[string][]byte, []string, error) {
+	var missing []string
 	byPkg := map[string][]*Contract{}
 	for _, k := range sortedKeys(contracts) {
 		c := contracts[k]
@@ -360,19 +502,37 @@ func genClauseFiles(w *World, contracts map[string]*Contract) (map[string][]byte
 			if strings.HasSuffix(c.Key, ".#global") {
 				for i, cl := range c.Ensures {
 					cl.GenName = fmt.Sprintf("xvcc_%s_globalinv_%d", pkg, i)
-					fmt.Fprintf(&body, "// global invariant [%s] (%s:%d)\nfunc %s() bool {\n\treturn %s\n}\n\n", cl.Label, filepath.Base(cl.File), cl.Line, cl.GenName, cl.Text)
+					fmt.Fprintf(&body, "// @key %s\n// global invariant [%s] (%s:%d)\nfunc %s() bool {\n\treturn %s\n}\n\n", c.Key, cl.Label, filepath.Base(cl.File), cl.Line, cl.GenName, cl.Text)
 				}
 				continue
 			}
 			f := w.Funcs[c.Key]
 			if f == nil {
-				return nil, fmt.Errorf("%s:%d: contract names function %s which does not exist in the current tree", c.File, c.Line, c.Key)
+				missing = append(missing, c.Key)
+				continue
 			}
 			vars := collectVars(f)
 			emit := func(cl *Clause, idx int, withResult, withLocals bool, retType string) {
 				cl.GenName = fmt.Sprintf("xvcc_%s_%s_%d", sanitize(c.Key), cl.Kind, idx)
 				var ps []string
 				cl.Params = nil
+				if cl.Kind == "atcall" && cl.Callee != "*" {
+					cf := w.Funcs[c.Pkg+"."+cl.Callee]
+					if cf == nil {
+						// callee of another package: "pkg:short"
+						if i := strings.Index(cl.Callee, ":"); i > 0 {
+							cf = w.Funcs[cl.Callee[:i]+"."+cl.Callee[i+1:]]
+						}
+					}
+					if cf != nil {
+						for _, cp := range cf.Params {
+							if isIdent(cp.Name()) {
+								ps = append(ps, "arg_"+cp.Name()+" "+types.TypeString(cp.Type(), qual))
+								cl.Params = append(cl.Params, "arg_"+cp.Name())
+							}
+						}
+					}
+				}
 				for i, n := range vars.PNames {
 					ps = append(ps, n+" "+types.TypeString(vars.PTypes[i], qual))
 					cl.Params = append(cl.Params, n)
@@ -389,7 +549,7 @@ func genClauseFiles(w *World, contracts map[string]*Contract) (map[string][]byte
 						cl.Params = append(cl.Params, n)
 					}
 				}
-				fmt.Fprintf(&body, "// %s %s [%s] (%s:%d)\nfunc %s(%s) %s {\n\treturn %s\n}\n\n", c.Key, cl.Kind, cl.Label, filepath.Base(cl.File), cl.Line, cl.GenName, strings.Join(ps, ", "), retType, cl.Text)
+				fmt.Fprintf(&body, "// @key %s\n// %s %s [%s] (%s:%d)\nfunc %s(%s) %s {\n\treturn %s\n}\n\n", c.Key, c.Key, cl.Kind, cl.Label, filepath.Base(cl.File), cl.Line, cl.GenName, strings.Join(ps, ", "), retType, cl.Text)
 			}
 			n := 0
 			for _, cl := range c.Requires {
@@ -398,6 +558,10 @@ func genClauseFiles(w *World, contracts map[string]*Contract) (map[string][]byte
 			}
 			for _, cl := range c.Ensures {
 				emit(cl, n, true, false, "bool")
+				n++
+			}
+			for _, cl := range c.AtCalls {
+				emit(cl, n, false, true, "bool")
 				n++
 			}
 			var loopIds []int
@@ -417,6 +581,24 @@ func genClauseFiles(w *World, contracts map[string]*Contract) (map[string][]byte
 				}
 			}
 		}
+		// packages imported by the contracts file and mentioned in clause texts
+		if cp := w.Pkgs[pkg]; cp != nil {
+			for _, f := range cp.Syntax {
+				if filepath.Base(cp.Fset.Position(f.Pos()).Filename) != contractFile {
+					continue
+				}
+				for _, im := range f.Imports {
+					path := strings.Trim(im.Path.Value, "\"")
+					name := shortPkg(path)
+					if im.Name != nil {
+						name = im.Name.Name
+					}
+					if regexp.MustCompile(`\b` + regexp.QuoteMeta(name) + `\.`).MatchString(body.String()) {
+						imports[path] = name
+					}
+				}
+			}
+		}
 		var hdr strings.Builder
 		hdr.WriteString("//go:build verif\n\n// Code generated by xvc from the //@ contract comments. DO NOT EDIT.\n\npackage " + pkg + "\n\n")
 		var ips []string
@@ -433,7 +615,7 @@ func genClauseFiles(w *World, contracts map[string]*Contract) (map[string][]byte
 		}
 		out[filepath.Join(w.RepoDir, pkg, genFile)] = []byte(hdr.String() + body.String())
 	}
-	return out, nil
+	return out, missing, nil
 }
 
 // attachClauses links clauses to their typed generated functions after the second load.
@@ -441,6 +623,7 @@ func attachClauses(w *World, contracts map[string]*Contract) error {
 	for _, c := range contracts {
 		all := append([]*Clause{}, c.Requires...)
 		all = append(all, c.Ensures...)
+		all = append(all, c.AtCalls...)
 		for _, ls := range c.Loops {
 			all = append(all, ls.Invariants...)
 			if ls.Decreases != nil {
